@@ -615,6 +615,23 @@ def rule_r5(prog, res) -> None:
                 res.violation("C09.R5", fi, c, f"{fi.qualname} creates chunks of user data with chkfinite={unparse(eff) if eff is not None else 'unset'}" + ("" if given is not None else " (the default of DataChunk.create)") + ": NaN / infinite coordinates, weights and redshifts are stored instead of being rejected", key_extra=f"chkfinite-off-{fi.qualname}")
     if n_calls < 1:
         raise AnalysisError("C09.R5: no DataChunk.create call found in the readers")
+    # (b'') the length check the readers rely on is a check: common_len_assert has a raising path that is entered when
+    # two lengths were found different (and none when they were found equal)
+    cla2 = prog.func("common_len_assert")
+    res.touch(cla2)
+    ccfg = cfg_of(cla2.node)
+    verdicts = []
+    for nd in ccfg.nodes:
+        if nd.kind == "stmt" and isinstance(nd.ast, ast.Raise):
+            for t, pol in ccfg.guards(nd):
+                for y in ast.walk(t):
+                    if isinstance(y, ast.Compare) and len(y.ops) == 1 and isinstance(y.ops[0], (ast.Eq, ast.NotEq)) and "len(" in unparse(y):
+                        neg = sum(1 for z in ast.walk(t) if isinstance(z, ast.UnaryOp) and isinstance(z.op, ast.Not) and any(w is y for w in ast.walk(z)))
+                        verdicts.append((isinstance(y.ops[0], ast.NotEq) == pol) if neg % 2 == 0 else (isinstance(y.ops[0], ast.NotEq) != pol))
+    if verdicts and all(verdicts):
+        res.ok("C09.R5", res.site(cla2), "raises when two of the given containers differ in length")
+    else:
+        res.violation("C09.R5", cla2, cla2.node, "common_len_assert no longer raises when the lengths of the given columns differ (or raises when they agree): columns of different length are paired row by row, the longer ones truncated silently", key_extra="common-len-assert-semantics")
     # (c) check_patch_ids raises on both sides of the range, for the ids AS GIVEN: decided on the symbolic paths —
     # the raising decision is folded for ids below, inside and above the range, and the compared array must not have
     # been narrowed to the storage type before (a wrapped value passes any range check)
